@@ -55,7 +55,10 @@ fn main() {
         "find-c09" => findlayer::gen_c09(&mut w, &tier, seed),
         "find-c10" => findlayer::gen_c10(&mut w, &tier, seed),
         "find-c12" => findlayer::gen_c12(&mut w, &tier, seed),
-        "find-c13" => findlayer::gen_c13(&mut w, &tier, seed),
+        "find-c13" => {
+            findlayer::gen_c13(&mut w, &tier, seed);
+            find2::gen_c13_stop(&mut w, &tier, seed);
+        }
         "find-c17" => { findlayer::gen_c17(&mut w, &tier, seed); find2::gen_c17(&mut w, &tier, seed) }
         "find-c01" => find2::gen_c01(&mut w, &tier, seed),
         "find-c02" => find2::gen_c02(&mut w, &tier, seed),
